@@ -16,8 +16,8 @@ HARNESSES = [
   dict(COMMON, name="adjust_maxfreqs", entry="h_adjust_maxfreqs", encoded=["hwloc_linux_cpukinds_adjust_maxfreqs"], tiers={"quick": {"defines": {"NP": 3}}, "thorough": {"defines": {"NP": 4}, "timeout": 6000}},
        bounds="3 (4) PUs, max frequencies 0..2^24 (0 = missing cpufreq file), 4 base frequencies, adjust threshold 0..100 %; floating point is bit-precise in CBMC", cost=60),
 ]
-for l, tiers in ((1, {"quick": {}, "thorough": {}}), (2, {"quick": {}, "thorough": {}}), (3, {"quick": {}, "thorough": {}}), (4, {"quick": {}, "thorough": {}}), (5, {"thorough": {"timeout": 4000}}), (6, {"thorough": {"timeout": 6000}})):
-    HARNESSES.append(dict(src="C18_components.c", env=["vp_alloc.c", "vp_libc.c"], units=[], name="components_env_l%d" % l, entry="h_components_env", defines={"L": l}, checks="safety+", object_bits=10, timeout=1500, unwind=l + 6, core=(l <= 4),
+for l, tiers in ((1, {"quick": {}, "thorough": {}}), (2, {"quick": {}, "thorough": {}}), (3, {"quick": {}, "thorough": {}}), (4, {"thorough": {"timeout": 3000}}), (5, {"thorough": {"timeout": 4000}}), (6, {"thorough": {"timeout": 6000}})):
+    HARNESSES.append(dict(src="C18_components.c", env=["vp_alloc.c", "vp_libc.c"], units=[], name="components_env_l%d" % l, entry="h_components_env", defines={"L": l}, checks="safety+", object_bits=10, timeout=1500, unwind=l + 6, core=(l <= 3),
                       unwindset={"strcspn.0": l + 4, "strcspn.1": 6, "strlen.0": 10, "strdup.0": l + 4, "strcpy.0": 10, "strchr.0": l + 4, "strcmp.0": 10, "strncmp.0": 10, "strcasecmp.0": 10, "vp_strto.0": 8, "vp_strto.1": 10, "realloc.0": 40},
                       encoded=["hwloc_disc_components_enable_others", "hwloc_disc_component_blacklist_one", "hwloc_disc_component_find", "hwloc_phases_from_string", "hwloc_disc_component_try_enable", "hwloc_backend_alloc", "hwloc_backend_enable", "hwloc_backend_disable"],
                       tiers=tiers, typed_realloc=True,
